@@ -61,7 +61,7 @@ func acceptUnits(c *checkCtx, check string) []*interp.Unit {
 	gen := evalList(c, "vFamilyGenerated")
 	var profs []profile
 	if c.quick() {
-		specs = append(specs, everyNth(gen, 32, c.seed)...)
+		specs = append(specs, everyNth(gen, 48, c.seed)...)
 		profs = []profile{
 			{"raw K<=2 L<=3", map[string]interface{}{"profile": "raw", "K": 2, "L": 3}},
 			{"tmpl K<=2 Lp<=1", map[string]interface{}{"profile": "tmpl", "K": 2, "Lp": 1}},
@@ -135,7 +135,7 @@ func init() {
 		Units: func(c *checkCtx) []*interp.Unit { return acceptUnits(c, "C01") },
 		Bounds: func(c *checkCtx) map[string]interface{} {
 			if c.quick() {
-				return map[string]interface{}{"specs": "curated + END family + every 32nd generated spec (rotated by VERIF_SEED)", "raw": "K<=2 tokens of L<=3 arbitrary bytes", "template": "K<=2 items over 24 documented/malformed shapes, payload <=1 byte", "structural (H_struct)": "every sequence of <=4 spec tokens over 16 kinds that compiles: language equivalence of the compiled graph and the Glushkov automaton of the reference regular expression, proved by k-induction in z3 for label sequences of any length"}
+				return map[string]interface{}{"specs": "curated + END family + every 48th generated spec (rotated by VERIF_SEED)", "raw": "K<=2 tokens of L<=3 arbitrary bytes", "template": "K<=2 items over 24 documented/malformed shapes, payload <=1 byte", "structural (H_struct)": "every sequence of <=4 spec tokens over 16 kinds that compiles: language equivalence of the compiled graph and the Glushkov automaton of the reference regular expression, proved by k-induction in z3 for label sequences of any length"}
 			}
 			return map[string]interface{}{"specs": "curated + END family + all generated specs", "raw": "K<=2 tokens of L<=4 arbitrary bytes", "template": "K<=3 items over 24 documented/malformed shapes, payload <=1 byte", "structural (H_struct)": "every sequence of <=5 spec tokens over 16 kinds that compiles: language equivalence by k-induction, label sequences of any length"}
 		},
@@ -286,8 +286,8 @@ func init() {
 			if c.quick() {
 				us := specUnits("H_swap", append(core, everyNth(all, 32, c.seed)...), []profile{{"n<=2 Lp<=1", map[string]interface{}{"n": 2, "Lp": 1, "env": 0, "flagsOnly": 0}}}, 1)
 				us = append(us, specUnits("H_swap", envSpecs, []profile{{"n<=2 Lp<=1 env subsets", map[string]interface{}{"n": 2, "Lp": 1, "env": 1, "flagsOnly": 0}}}, 1)...)
-				us = append(us, specUnits("H_swap", []string{"[OPTIONS]", "[-ab]", "-a... [-b]", "(-a | -b)..."}, []profile{{"flags only n<=4 env subsets", map[string]interface{}{"n": 4, "Lp": 1, "env": 1, "flagsOnly": 1}}}, 1)...)
-				return append(us, specUnits("H_swap", append([]string{"[-a] [-o] [X]"}, everyNth(all, 640, c.seed)...), []profile{{"n<=3 Lp<=1", map[string]interface{}{"n": 3, "Lp": 1, "env": 0, "flagsOnly": 0}}}, 1)...)
+				us = append(us, specUnits("H_swap", []string{"[OPTIONS]", "[-ab]", "-a... [-b]", "(-a | -b)..."}, []profile{{"flags only n<=4, env subsets of {VA,VB}", map[string]interface{}{"n": 4, "Lp": 1, "env": 1, "flagsOnly": 1, "envmask": 3}}}, 1)...)
+				return append(us, specUnits("H_swap", append([]string{"[-a] [-o] [X]", "[-o] [-e] [-a]"}, everyNth(all, 960, c.seed)...), []profile{{"n<=3 Lp<=1", map[string]interface{}{"n": 3, "Lp": 1, "env": 0, "flagsOnly": 0}}}, 1)...)
 			}
 			us := specUnits("H_swap", append(core, everyNth(all, 8, c.seed)...), []profile{{"n<=3 Lp<=1", map[string]interface{}{"n": 3, "Lp": 1, "env": 0, "flagsOnly": 0}}}, 1)
 			us = append(us, specUnits("H_swap", []string{"[OPTIONS]", "[-ab]", "-a... [-b]", "(-a | -b)...", "[-ab]... X"}, []profile{{"flags only n<=5 env subsets", map[string]interface{}{"n": 5, "Lp": 1, "env": 1, "flagsOnly": 1}}}, 1)...)
@@ -610,6 +610,9 @@ func init() {
 				}
 				us = append(us, unit(cli, "H_indep", fmt.Sprintf("H_indep[footprint spec %d raw K<=2 L<=2]", a), ps("footprint", 2, 2)))
 				us = append(us, unit(cli, "H_indep", fmt.Sprintf("H_indep[determinism spec %d raw K<=2 L<=2]", a), ps("determinism", 2, 2)))
+				pt := ps("determinism", 3, 1)
+				pt["profile"], pt["Lp"] = "tmplmini", 1
+				us = append(us, unit(cli, "H_indep", fmt.Sprintf("H_indep[determinism spec %d core template K<=3]", a), pt))
 				us = append(us, unit(cli, "H_indep", fmt.Sprintf("H_indep[interfere spec %d/%d raw K<=1 L<=2]", a, (a+1)%n), ps("interfere", 1, 2)))
 				us = append(us, unit(cli, "H_indep", fmt.Sprintf("H_indep[envtime spec %d raw K<=1 L<=2]", a), ps("envtime", 1, 2)))
 			}
